@@ -549,6 +549,93 @@ def replaced_world_case(case):
     return steps
 
 
+def edge_case(case):
+    """Continuous worlds whose extents are not dyadic (7.3, 0.3, 12.7 ...): a relative move lands at old + delta saturated
+    to the edges (exactly the edge when it saturates), or inside 0..extent when the world wraps."""
+    from mc.engine.seams import reset_library
+    reset_library()
+    model = new_model(seed=1)
+    E = case['extent']
+    world = mk_world(model, 'space', [E, E, 0], case['wrap'])
+    n = 0
+    for start in case['starts']:
+        for delta in case['deltas']:
+            a = Core.Agent(f'a{n}', model)
+            world.add_agent(a, start, E - start if 0 <= E - start <= E else start)
+            y0 = a[PC].y
+            world.move(a, delta, -delta)
+            x, y = a[PC].x, a[PC].y
+            n += 1
+            if case['wrap']:
+                ok = 0 <= x <= E and 0 <= y <= E
+                want = 'inside 0..%r' % E
+            else:
+                want = [min(max(start + delta, 0), E), min(max(y0 - delta, 0), E)]
+                ok = [x, y] == want
+            if not ok:
+                raise Violation(f'space world {E} x {E} (wrap {case["wrap"]}): agent at ({start!r}, {y0!r}) moved by '
+                                f'({delta!r}, {-delta!r})', expected=want, observed=[x, y])
+            world.remove_agent(a.id)
+    return n
+
+
+def edge_cases():
+    for E in (7.3, 0.3, 12.7, 100.1, 2 / 3, 1e-3, 5.0, 1e9 + 0.1):
+        for wrap in (False, True):
+            yield {'leg': 'edge', 'extent': E, 'wrap': wrap, 'starts': [0.0, E, E / 3, E * 0.19, E - E / 7, E / 2],
+                   'deltas': [E, -E, 100 * E, -100 * E, E / 10, E * 0.81, E * 0.9, E / 3, -E / 3, 5.95 * E / 7.3, 1e-9, -1e-9]}
+
+
+def shared_value_case(case):
+    """Coordinates and displacements handed over as objects that support in-place arithmetic (0-d numpy arrays), one object
+    used for two agents: each agent keeps its own position, the caller's object is not touched."""
+    from mc.engine.seams import reset_library
+    import numpy as np
+    reset_library()
+    model = new_model(seed=1)
+    kind, dims = case['world']
+    world = mk_world(model, kind, dims, case['wrap'])
+    cont = kind == 'space'
+    mkv = {'arr0d': lambda v: np.asarray(float(v) if cont else int(v)), 'npscalar': lambda v: (np.float64 if cont else np.int64)(v),
+           'plain': lambda v: float(v) if cont else int(v)}[case['form']]
+    c, d = mkv(2), mkv(1)
+    a, b = Core.Agent('a', model), Core.Agent('b', model)
+    nax = 1 if kind == 'line' else 2
+    world.add_agent(a, *[c] * nax)
+    world.add_agent(b, *[c] * nax)
+    ext = [e for e in (list(dims) + [0, 0])[:3]]
+
+    def where(ag):
+        return [float(v) for v in ag[PC].xyz()]
+
+    def land(old, delta, e):
+        if e <= 0:
+            return old
+        if case['wrap']:
+            return (old + delta) % e
+        return min(max(old + delta, 0), e if cont else e - 1)
+    pos = {'a': [2.0] * nax + [0.0] * (3 - nax), 'b': [2.0] * nax + [0.0] * (3 - nax)}
+    n = 0
+    for who, ag in (('a', a), ('b', b), ('a', a), ('a', a), ('b', b)):
+        world.move(ag, *[d] * nax)
+        for i in range(nax):
+            pos[who][i] = land(pos[who][i], 1.0, ext[i])
+        n += 1
+        got = {'a': where(a), 'b': where(b)}
+        if got != pos or float(c) != 2 or float(d) != 1:
+            raise Violation(f'{kind} world {dims} (wrap {case["wrap"]}), coordinates given as {case["form"]} (one object for both '
+                            f'agents): after move {n} (agent {who} by 1 on every axis) the positions of a and b / the '
+                            f'caller\'s own values 2 and 1', expected=[pos, 2.0, 1.0], observed=[got, float(c), float(d)])
+    return n
+
+
+def shared_value_cases():
+    for world in (('space', [4.0, 3.0, 0]), ('grid', [5, 4]), ('line', [6]), ('discrete', [5, 4, 0])):
+        for wrap in (False, True):
+            for form in ('arr0d', 'npscalar', 'plain'):
+                yield {'leg': 'shared_value', 'world': list(world), 'wrap': wrap, 'form': form}
+
+
 TWO_MOVERS = [('grid', [5, 4], [1, 1], [3, 2]), ('space', [4.0, 3.0, 0], [0.5, 1.0, 0], [3.5, 2.0, 0]),
               ('discrete', [3, 3, 3], [0, 1, 2], [2, 0, 1])]
 TWO_CALLS = [('move', [1, 1, 0]), ('move', [-2, 3, 0]), ('move_to', [2, 0, 0]), ('move', [7, -7, 1])]
@@ -668,6 +755,17 @@ def run(ctx):
                     ctx.report(case, v)
                     return
     ctx.leg('replaced_world', cases=4 * len(pairs), note='second world installed in place of the first / used side by side')
+    for gen, fn, name in ((edge_cases, edge_case, 'edge'), (shared_value_cases, shared_value_case, 'shared_value')):
+        ne = 0
+        for case in gen():
+            ctx.traces += 1
+            ne += 1
+            try:
+                ctx.transitions += hbfs._guard(fn, case)
+            except Violation as v:
+                ctx.report(case, v)
+                return
+        ctx.leg(name, cases=ne)
     if not ctx.small:
         nt = 0
         for wi in range(len(TWO_MOVERS)):
@@ -696,6 +794,12 @@ def run(ctx):
 def replay(case):
     if case['leg'] == 'replaced_world':
         hbfs._guard(replaced_world_case, case)
+        return
+    if case['leg'] == 'edge':
+        hbfs._guard(edge_case, case)
+        return
+    if case['leg'] == 'shared_value':
+        hbfs._guard(shared_value_case, case)
         return
     if case['leg'] == 'two_movers':
         hbfs._guard(two_movers_case, case)
